@@ -69,6 +69,7 @@ TGeo2Shape ==
        IN  /\ ~e.panic
            /\ IF t = 0 THEN e.refused
               ELSE /\ ~e.refused /\ e.shape.t = t
+                   /\ BoxXYOK(e.shape)                        \* C05: a converted shape carries its exact box
                    /\ e.variant2 = GeometryOf(t, << >>)
                    /\ CASE e.variant = "Point" -> e.g2 = e.g /\ XY(e.shape.parts[1][1]) = e.g
                         [] e.variant = "MultiPoint" -> e.g2 = e.g /\ XYs(e.shape.parts[1]) = e.g
